@@ -290,7 +290,7 @@ pub fn bounds(tier: Tier) -> Vec<(usize, usize)> {
         return v.split(',').filter_map(|x| x.split_once(':')).filter_map(|(a, b)| Some((a.parse().ok()?, b.parse().ok()?))).collect();
     }
     match tier {
-        Tier::Quick => vec![(3, 3), (4, 2), (5, 1)],
+        Tier::Quick => vec![(3, 3), (4, 3), (5, 1), (6, 1)],
         Tier::Thorough => vec![(4, 4), (5, 3), (6, 2), (7, 1)],
     }
 }
